@@ -230,6 +230,17 @@ def gen(ctx):
                                       ("CurrentSong", None, [(k, "x"), ("file", "a")]), ("Status", None, list(GOOD["Status"]) + [(k, "1")])):
             cases.append(typed_case(ident, params, wire(fields)))
             dist["odd-keys"] = dist.get("odd-keys", 0) + 1
+    # list / count replies whose keys are the requested catch-all tags in ANOTHER letter case (the server echoes its own spelling), as the
+    # primary tag, as a grouping tag, among known tags: grouped_values / values must cope, whatever they make of the lines
+    for req, echo in (("mood", "Mood"), ("Mood", "mood"), ("MOOD", "mood"), ("x-y", "X-Y"), ("album", "Album"), ("ALBUM", "album")):
+        o = "o:" + req.encode().hex()
+        for params, fields in ((o + "+n:Album", [("Album", "A"), (echo, "happy"), ("Album", "B"), (echo, "sad")]),
+                               ("n:Title+" + o, [(echo, "happy"), ("Title", "t1"), ("Title", "t2"), (echo, "sad"), ("Title", "t3")]),
+                               (o + "+" + o, [(echo, "a"), (echo, "b")]), (o, [(echo, "v1"), (req, "v2"), (echo.upper(), "v3")]),
+                               ("n:Album+" + o + "+n:Artist", [("Artist", "r"), (echo, "m"), ("Album", "a1"), ("Album", "a2"), (req, "m2"), ("Album", "a3")])):
+            cases.append(typed_case("List", params, wire(fields)))
+            dist["list-case-echo"] = dist.get("list-case-echo", 0) + 1
+        cases.append(typed_case("CountGrouped", o, wire([(echo, "A"), ("songs", "1"), ("playtime", "2"), (req, "B"), ("songs", "3"), ("playtime", "4")])))
     # typed lists: Vec and tuples 1..8, N-1 / N / N+1 frames
     for _ in range(260 if not thorough else 4000):
         shape = rng.choice(["vec", "tuple", "tuple"])
